@@ -1479,6 +1479,7 @@ THEOREMS = [
     'C12.K_symm', 'C12.kOf_conj', 'C12.K_real_partial', 'C12.traction_coef', 'C12.K_is_traction', 'C12.iso_K_is_traction',
     # covariance under rotating the whole problem, independence of the eigen-solver's normalisation
     'C12.eigen_covariant', 'C12.inverse_covariant', 'C12.fields_covariant', 'C12.K_covariant', 'C12.scale_invariant',
+    'C12.pair_order_invariant',
     # isotropic closed form (generated definitions)
     'C12.iso_stress_is_hooke', 'C12.iso_symmetric', 'C12.iso_falls_as_inv_r', 'C12.iso_burgers_jump',
     'C12.iso_jump_general', 'C12.iso_K_symm', 'C12.iso_K_posdef',
@@ -1503,9 +1504,10 @@ PARTIAL = {
         'the displacement continuous (and differentiable) across that plane is not stated in Lean; the continuity oracle '
         'checks it on the real code with exact zeros of pos.m.',
     'covariance': 'eigen_covariant / fields_covariant / K_covariant show that the rotated eigen-pairs solve the rotated problem '
-        'and give the rotated fields; that numpy.linalg.eig *returns* those pairs (it may return any scaling and, for the '
-        'three pairs, any order) is covered only for the scaling (scale_invariant); reordering of the pairs is explored on '
-        'the real code (covariance oracle).',
+        'and give the rotated fields; the freedom numpy.linalg.eig has in returning them is covered by scale_invariant (any '
+        'scaling of each eigenvector) and pair_order_invariant (any order of the three pairs); that it lists each pair with '
+        'Im p > 0 first is LAPACK\'s convention (hypothesis of burgers_jump_limit, verified by the driver and by the sign of '
+        'the jump and of K in the search).',
     'stress_div_free over the reals': 'the derivative theorems for the Stroh fields are stated for complex field points and '
         'complex directions (F = C, the type np.log works in), which contains the real points the API takes; the coded '
         'np.real_if_close step (dropping an imaginary part below tol) is modelled only in the correspondence.',
